@@ -121,9 +121,10 @@ def _mk_acb(name):
 
 
 CBS = ['cb%d' % i for i in range(8)]
+CBX = 'cbx'          # used for on_exception only: its invocation reveals a swallowed exception
 CONDS = ['cond%d' % i for i in range(4)]
 ACBS = ['acb%d' % i for i in range(2)]
-for _n in CBS:
+for _n in CBS + [CBX]:
     setattr(RecMixin, _n, _mk_cb(_n))
 for _n in CONDS:
     setattr(RecMixin, _n, _mk_cond(_n))
@@ -290,7 +291,7 @@ def gen_case(rng, cls_name, tier):
         if rng.random() < 0.25:
             opts[slot] = [rng.choice(cbpool)]
     if rng.random() < 0.15:
-        opts['on_exception'] = ['cb7']
+        opts['on_exception'] = [CBX]
     if g:
         opts['show_conditions'] = rng.random() < 0.5
         opts['show_state_attributes'] = rng.random() < 0.3
@@ -923,7 +924,10 @@ def run_case(case, want_requests=True):
             mark = next(SEQ)
             MODREC.clear()
             stylesK = graph_styles(K, mk)
+            lensK = {id(m): len(m.__dict__.get('rec', [])) for m in K.machine.models}
             ok_ = apply_item(case, K, it)
+            swallowed = any(e[0] == CBX for m in K.machine.models
+                            for e in m.__dict__.get('rec', [])[lensK.get(id(m), 0):])
             changedK = stylesK is not None and graph_styles(K, mk) is not stylesK
             entK = entered_since(K, mark)
             if ok_[0] == 'exc':
@@ -957,7 +961,7 @@ def run_case(case, want_requests=True):
                 dstK = canon_state(getattr(mk, K.machine.model_attribute, None))
                 # `_change_state` ran: the state differs, or (graph classes) the graph was restyled (reflexive)
                 moved = dstK != srcK or changedK
-                if ok_[0] == 'exc' and moved:
+                if (ok_[0] == 'exc' or swallowed) and moved:
                     lean_ok = False      # an exception in the middle of a transition: tables not comparable
                     continue
                 if ok_[0] == 'exc' and ok_[1] != 'MachineError':
@@ -1307,7 +1311,7 @@ class C15(runner.Check):
                 'the theorems speak about an abstract transition relation; the engine itself is not re-proved equivariant']
 
     def budget(self, tier):
-        return (16, 5) if tier == "quick" else (32, 40)
+        return (16, 12) if tier == "quick" else (32, 25)
 
     def explore(self, tier, seed):
         workers, n = self.budget(tier)
